@@ -234,6 +234,66 @@ def translate_vulnerability(w, meth, out):
             out.append(f"/-- UNTRANSLATABLE {doc} — {str(e).replace('-/', '- /')} -/\ndef {fn.lean} {ps} : Bool := default\n")
 
 
+class TrMap(TrGen):
+    """`_convert_to_os_map` / `_convert_to_service_map` / `_convert_to_process_map`: the generator's name lists are the
+    parameter `names`, the dictionary built is a `List (Nat × Bool)` in insertion order (`PyRt.dictSet`)"""
+    def expr(self, e, env):
+        if isinstance(e, ast.Attribute) and isinstance(e.value, ast.Name) and e.value.id == "self" \
+                and e.attr in ("os", "services", "processes") and "names" in env:
+            return "names", "List:Nat"
+        if isinstance(e, ast.Call) and isinstance(e.func, ast.Name) and e.func.id == "zip" and len(e.args) == 2 and not e.keywords:
+            a, ta = self.expr(e.args[0], env)
+            b, tb = self.expr(e.args[1], env)
+            if ta == "List:Nat" and tb == "List:Bool":
+                return f"(List.zip {a} {b})", "List:Nat*Bool"
+            self.err(e, f"zip of {ta} and {tb}")
+        return super().expr(e, env)
+
+    def assign(self, tgt, value, env, nxt, ind):
+        if isinstance(tgt, ast.Name) and isinstance(value, ast.Dict) and not value.keys:
+            env2 = dict(env)
+            env2[tgt.id] = ("val", "Dict")
+            return "  " * ind + f"let {tgt.id} := ([] : List (Nat × Bool))\n" + nxt(env2)
+        if isinstance(tgt, ast.Subscript) and isinstance(tgt.value, ast.Name) and env.get(tgt.value.id, ("", ""))[1:] == ("Dict",):
+            kx, kt = self.expr(tgt.slice, env)
+            o, t = self.expr(value, env)
+            if kt != "Nat" or t != "Bool":
+                self.err(tgt, f"store of {t} under a key of type {kt}")
+            d = tgt.value.id
+            return "  " * ind + f"let {d} := PyRt.dictSet {d} {kx} {o}\n" + nxt(env)
+        return super().assign(tgt, value, env, nxt, ind)
+
+
+def translate_maps(w, meth, out):
+    LEAN_TYPE.update({"NatBoolD": "List (Nat × Bool)", "List:Nat": "List Nat", "List:Bool": "List Bool"})
+    for name, params in (("_convert_to_os_map", [("os", "Nat")]), ("_convert_to_service_map", [("config", "List:Bool")]),
+                         ("_convert_to_process_map", [("config", "List:Bool")])):
+        ctx = [("names", "List:Nat")]
+        fn = Fn("ScenarioGenerator", name, f"ScenarioGenerator.{name}", params, "NatBoolD", self_ty="Gen")
+        fn.kind, fn.prop, fn.classmethod = "function", False, False
+        doc = f"`nasim/scenarios/generator.py`: `ScenarioGenerator.{name}` (the name list it reads from `self` is `names`)"
+        ps = " ".join(f"({p} : {LEAN_TYPE[t]})" for p, t in ctx + params)
+        try:
+            node = meth.get(name)
+            if node is None:
+                raise Untranslatable(f"{name} not found")
+            got = [a.arg for a in node.args.args if a.arg != "self"]
+            if got != [p for p, _ in params]:
+                raise Untranslatable(f"{name}: parameters are {got}")
+            t = TrMap(w, fn, node)
+            t.loop = None
+            env = {p: ("val", ty) for p, ty in ctx + params}
+            saved = w.lean_ret
+            w.lean_ret = lambda f_: "List (Nat × Bool)"
+            try:
+                body = t.block(node.body, env, lambda e2, i2: t.err(node, "falls off the end"), 1)
+            finally:
+                w.lean_ret = saved
+            out.append(f"/-- {doc} -/\ndef {fn.lean} {ps} : List (Nat × Bool) :=\n{body}")
+        except Untranslatable as e:
+            out.append(f"/-- UNTRANSLATABLE {doc} — {str(e).replace('-/', '- /')} -/\ndef {fn.lean} {ps} : List (Nat × Bool) := default\n")
+
+
 def translate_generator():
     from nasim.scenarios import generator as gen_mod
     w = World()
@@ -289,4 +349,5 @@ def translate_generator():
         out.append(f"/-- UNTRANSLATABLE {doc} — {str(e).replace('-/', '- /')} -/\n"
                    f"def {fn.lean} (subnets : List Nat) : List (List Int) := default\n")
     translate_vulnerability(w, meth, out)
+    translate_maps(w, meth, out)
     return "\n".join(out)
